@@ -206,7 +206,9 @@ func vbRunScenario(args []string) string {
 		return "!badcase"
 	}
 	ctx := NewBrokerContext(log.New(io.Discard, "", 0))
+	freshFp := "-" // the fresh clients at the end name a bridge that is in the installed list
 	if args[1] != "-" {
+		freshFp = strings.SplitN(strings.Split(args[1], ",")[0], "=", 2)[0]
 		var sb strings.Builder
 		for _, b := range strings.Split(args[1], ",") {
 			kv := strings.SplitN(b, "=", 2)
@@ -307,7 +309,7 @@ func vbRunScenario(args []string) string {
 	}
 	fresh := func(nat string) string {
 		ch := make(chan string, 1)
-		go func() { ch <- vbDoClient(i, nat, "-", "{fresh}", "v") }()
+		go func() { ch <- vbDoClient(i, nat, freshFp, "{fresh}", "v") }()
 		select {
 		case r := <-ch:
 			return r
